@@ -47,6 +47,9 @@ type concOp struct {
 	prefix  string
 }
 
+// sharedParseOpts is built before any task exists and only read afterwards.
+var sharedParseOpts []participle.ParseOption
+
 const failedOrError = "error (allowed: the reader failed)"
 
 // mailbox passes errors between tasks the way a real program would: under a mutex the race
@@ -104,6 +107,14 @@ func execParserOp(op *concOp, p PH, w *world, mb *mailbox, reference bool) strin
 			w := &SimWriter{}
 			return p.ParseString(name, op.input, participle.Trace(w))
 		})
+	case "ParseSharedOptions":
+		// option values built once by the program and handed to every call (a package-level
+		// []ParseOption); the isolated reference uses values of its own
+		opts := sharedParseOpts
+		if reference {
+			opts = []participle.ParseOption{participle.Trace(discardSink{})}
+		}
+		res = call(func() (interface{}, error) { return p.ParseString(name, op.input, opts...) })
 	case "ParserForProduction":
 		res = call(func() (interface{}, error) { return exprProduction(p, op.input) })
 	case "PostError":
@@ -291,13 +302,14 @@ var genMemo = map[string]string{}
 var refMemo = map[string]string{}
 var refMemoHits int64
 
-var parserOpKinds = []string{"ParseString", "ParseBytes", "Parse", "ParseFromLexer", "Parser.Lex", "Parser.String", "PostError", "ParseString", "ParseString", "ParseFailingReader", "ParseTrace"}
+var parserOpKinds = []string{"ParseString", "ParseBytes", "Parse", "ParseFromLexer", "Parser.Lex", "Parser.String", "PostError", "ParseString", "ParseString", "ParseFailingReader", "ParseTrace", "ParseSharedOptions"}
 var defOpKinds = []string{"Def.Lex", "Def.LexString", "Def.LexBytes", "Def.Symbols", "Def.Rules", "Def.MarshalJSON", "SymbolsByRune", "Def.LexString", "Def.LexString", "Def.LexFailingReader", "MakeSymbolTable"}
 
 func runConcurrency(rc *RunCtx) *Violation {
 	capAbort.Store(false)
 	delims := runDelims(rc.seed)
 	simrt.ShuffleMaps = true
+	sharedParseOpts = []participle.ParseOption{participle.Trace(discardSink{})}
 	// ---- shared objects, built before any task exists --------------------------------------
 	var parsers []*sharedParser
 	var defs []*sharedDef
